@@ -134,7 +134,12 @@ func genOps(b bias, guard bool) []mach.Op {
 		case r < 0.62+b.emit:
 			ops = append(ops, mach.Op{Name: "setfrom", K: pickS(bkeys), K2: pickS(bkeys)})
 		case r < 0.66+b.emit:
-			ops = append(ops, mach.Op{Name: "emitb", K: pickS(bkeys)})
+			k := pickS(bkeys)
+			ops = append(ops, mach.Op{Name: "emitb", K: k})
+			if p(0.5) && !guard {
+				// ... and then the binding that was emitted is changed where it is: the message is what it was when it was emitted
+				ops = append(ops, mach.Op{Name: "mutnested", K: k})
+			}
 		case r < 0.70+b.emit:
 			ops = append(ops, mach.Op{Name: "delall"})
 		case r < 0.78+b.emit:
